@@ -568,6 +568,45 @@ def _trace_case(r, obs):
             obs.check(out2 == "exhausted", "infinite-flow-not-terminated:" + _culprit(els_r),
                       "on an infinite flow the reference finishes after %d pulls, the pipeline "
                       "exceeded that budget (%s)" % (total_ref, sig))
+        # two runs of the SAME pipeline object alive at once (stateless elements only): each
+        # pulls from its own input what the reference needs for its own results
+        if form == "seq" and not r["inf"] and _stateless(els_r) and res_ref:
+            real2, _ = build_pair(els_r)
+            trs = [Trace(), Trace()]
+            probes = [Probe(trs[0], make=make_value, n=n), Probe(trs[1], make=make_value, n=n)]
+            with contextlib.redirect_stdout(io.StringIO()):
+                gens = [real2.run(probes[0]), real2.run(probes[1])]
+                outs = [[], []]
+                live = [True, True]
+                turn = 0
+                bad_pull = None
+                try:
+                    while any(live):
+                        i = turn % 2
+                        turn += 1
+                        if not live[i]:
+                            continue
+                        try:
+                            v = next(gens[i])
+                        except StopIteration:
+                            live[i] = False
+                            continue
+                        outs[i].append(gen.freeze(v))
+                        kk = len(outs[i]) - 1
+                        if kk < len(pr) and trs[i].count("pull") > pr[kk] and bad_pull is None:
+                            bad_pull = (i, kk, trs[i].count("pull"), pr[kk])
+                except Exception as e:  # pylint: disable=broad-except
+                    outs = ["raised %r" % (e,), None]
+            obs.count("stop_points_checked")
+            obs.check(outs[0] == res_ref and outs[1] == res_ref,
+                      "values-differ-from-lazy-reference:two-live-runs-of-one-pipeline",
+                      "two runs of one pipeline object consumed alternately give %r and %r, the "
+                      "reference %r (%s)" % (outs[0], outs[1], res_ref, sig))
+            obs.check(bad_pull is None, "pulls-more-than-needed:two-live-runs-of-one-pipeline",
+                      "two runs of one pipeline object consumed alternately: run %r had pulled %r "
+                      "values when it delivered its result %r, the reference needs %r (%s)"
+                      % ((bad_pull or (0, 0, 0, 0))[0], (bad_pull or (0, 0, 0, 0))[2],
+                         (bad_pull or (0, 0, 0, 0))[1], (bad_pull or (0, 0, 0, 0))[3], sig))
         # explicit consumer stops: take k, close; nothing is pulled afterwards
         for stop in r["stops"]:
             if stop > len(res):
@@ -882,6 +921,14 @@ def _other_case(r, obs):
         p, end, before, total = pulls_before_each_got(tr)
         obs.check(before == 0 and total == 2, "self-test-probe-broken",
                   "lazy map over the probe: before=%r total=%r" % (before, total))
+
+
+def _stateless(els_r):
+    """No element of the pipeline keeps state between runs (Count counts on, a Cache stores)."""
+    bad = ("count", "cache")
+    # (a Split without copy_buf shares the value objects among its branches: what a result
+    # shows then depends on when it is looked at, in every kind of run)
+    return not any(k in repr(els_r) for k in ("'count'", "'cache'", ", False]"))
 
 
 def _culprit(els_r):
